@@ -27,7 +27,9 @@
 (*                                                                           *)
 (* Deviations (constant set Dev); the first three are the code as it is:     *)
 (*   "chain_reorder"      a node stores whatever Propagate arrives last      *)
-(*                        (Dev={}: keeps the highest sequence number per key)*)
+(*                        (Dev={}: a superseded Propagate spends the store   *)
+(*                        latency, stores nothing, and is passed on; the     *)
+(*                        node keeps the highest sequence number per key)    *)
 (*   "dirty_is_key_set"   the dirty mark is a set of KEYS: the commit / ack  *)
 (*                        of write 1 clears the mark while write 2 of the    *)
 (*                        same key is still on its way to the tail           *)
@@ -66,7 +68,7 @@ CPutDone(s, i) ==
     LET w == Head(s.q[i])
         k == s.wkey[w]
         new == IF i = 1 \/ "chain_reorder" \in Dev THEN w ELSE Max2(w, s.st[i][k])
-        s1 == [s EXCEPT !.q[i] = Tail(@), !.st[i][k] = new, !.appl[i] = @ \cup {w}]
+        s1 == [s EXCEPT !.q[i] = Tail(@), !.st[i][k] = new, !.appl[i] = IF new = w THEN @ \cup {w} ELSE @]
         early == "mid_forwards_before_apply" \in Dev
     IN IF i = 1
        THEN [s1 EXCEPT !.dirty[1] = IF s.craq THEN @ \cup {Mark(k, w)} ELSE @,
